@@ -2,6 +2,7 @@ package main
 
 import (
 	"fmt"
+	"sort"
 
 	"golang.org/x/tools/go/ssa"
 )
@@ -48,6 +49,75 @@ func (vc *VC) pointEnv(at *ssa.DebugRef) *Env {
 		env.old.vars[k] = v
 	}
 	blk := at.Block()
+	atIdx := -1
+	for i, ins := range blk.Instrs {
+		if ins == at {
+			atIdx = i
+		}
+	}
+	for name, bs := range vc.debug {
+		for _, db := range bs {
+			ok := (db.blk == blk && db.idx <= atIdx) || (db.blk != blk && db.blk.Dominates(blk))
+			if !ok {
+				continue
+			}
+			if v, has := vc.vals[db.val]; has {
+				env.vars[name] = v
+			} else if c, isC := db.val.(*ssa.Const); isC {
+				env.vars[name] = vc.constVal(c)
+			}
+		}
+	}
+	return env
+}
+
+// assertsAtSelect handles `assert at select <k>: e` clauses: e becomes an obligation (and then a
+// fact) just before the k-th select statement of the function (source order).
+func (vc *VC) assertsAtSelect(x *ssa.Select) {
+	if vc.con == nil || len(vc.con.Asserts) == 0 {
+		return
+	}
+	if vc.selectOrd == nil {
+		vc.selectOrd = map[*ssa.Select]int{}
+		var sels []*ssa.Select
+		for _, b := range vc.fn.Blocks {
+			for _, ins := range b.Instrs {
+				if s, ok := ins.(*ssa.Select); ok {
+					sels = append(sels, s)
+				}
+			}
+		}
+		sort.Slice(sels, func(i, j int) bool { return sels[i].Pos() < sels[j].Pos() })
+		for i, s := range sels {
+			vc.selectOrd[s] = i + 1
+		}
+	}
+	anchor := fmt.Sprintf("select:%d", vc.selectOrd[x])
+	for _, c := range vc.con.Asserts {
+		if c.After != anchor {
+			continue
+		}
+		env := vc.pointEnvAt(x.Block(), x)
+		R := vc.R[vc.cur]
+		goal := vc.evalBool(c.E, env)
+		o := vc.oblige("assert", R, goal, x.Pos(), c.Text)
+		o.Name = fmt.Sprintf("%s#assert.%d", vc.fname(), c.Ord)
+		o.Tags = c.Tags
+		vc.fact(R, goal)
+	}
+}
+
+// pointEnvAt: like pointEnv, for an arbitrary instruction.
+func (vc *VC) pointEnvAt(blk *ssa.BasicBlock, at ssa.Instruction) *Env {
+	env := &Env{vc: vc, vars: map[string]SVal{}, mem: vc.curMem, old: &Env{vc: vc, vars: map[string]SVal{}, mem: vc.mem0}}
+	for k, v := range vc.params {
+		env.vars[k] = v
+		env.old.vars[k] = v
+	}
+	for k, v := range vc.lets {
+		env.vars[k] = v
+		env.old.vars[k] = v
+	}
 	atIdx := -1
 	for i, ins := range blk.Instrs {
 		if ins == at {
